@@ -192,7 +192,8 @@ def gen_valid_history(rng, cfg, nops, slot=0, ratio_changes="any", chunk_changes
             if which < 0.4:
                 ops.append(f"{slot} part {mask} none m {sg}{d}")
             else:
-                ops.append(f"{slot} part {mask} p{rng.randint(0, 5)} m {sg}{d}")
+                # (inactive channels may be handed over as empty slices here too)
+                ops.append(f"{slot} part {mask} p{rng.randint(0, 5)} m {sg}{em}{d}")
             feats.add("part")
         elif c < 0.70 and wrappers:
             if rng.random() < 0.7:
